@@ -910,3 +910,83 @@ class ShieldedFuture:
         if not self.fut.result_set:
             raise asyncio.CancelledError
         return self.fut.value
+
+
+class WaiterEvent:
+    """An event queued in FairLock's deque of waiters.  `member` = currently in the deque; a member that is set counts in
+    its deque's `set_count` (ghost bookkeeping, like Future / FutureDeque)."""
+
+    def __init__(self):
+        self.flag = False
+        self.owner = None
+        self.member = False
+
+    def set(self):
+        if not self.flag:
+            self.flag = True
+            if self.owner is not None and self.member:
+                self.owner.set_count = self.owner.set_count + 1
+
+    def is_set(self):
+        return self.flag
+
+    async def wait(self):
+        if not self.flag:
+            suspend_point(self)
+            assume(self.flag)  # resumed normally only once somebody has set it
+        return True
+
+
+class WaiterDeque:
+    """deque of waiter events: `n` members, `set_count` of them set; `mine` (ghost) = the event appended by the function
+    under verification, `mine_first` (ghost) = it sits at index 0.  Which foreign member sits at the head is not tracked."""
+
+    def __init__(self):
+        self.n = 0
+        self.set_count = 0
+        self.mine = None
+        self.mine_first = False
+
+    def append(self, ev):
+        require(self.mine is None, "model limit: the function under verification appends one event")
+        ev.owner = self
+        ev.member = True
+        self.mine = ev
+        self.mine_first = (self.n == 0)
+        self.n = self.n + 1
+        if ev.flag:
+            self.set_count = self.set_count + 1
+
+    def remove(self, ev):
+        if not ev.member:
+            raise ValueError
+        ev.member = False
+        self.n = self.n - 1
+        if ev.flag:
+            self.set_count = self.set_count - 1
+
+    def __len__(self):
+        return self.n
+
+    def __getitem__(self, i):
+        """Only the head is ever looked at (and woken): `set member => it is the head` is the collection's invariant, kept by
+        every user because this is the only access; a foreign head is therefore set iff some foreign member is set."""
+        require(i == 0, "only-the-head-of-the-waiters-is-ever-woken")
+        if self.n == 0:
+            raise IndexError
+        m = self.mine
+        own_in = False
+        own_set = 0
+        if m is not None:
+            if m.member:
+                own_in = True
+                if m.flag:
+                    own_set = 1
+        if own_in and self.mine_first:
+            return m
+        assume(self.n >= (2 if own_in else 1))
+        f = WaiterEvent()
+        f.owner = self
+        f.member = True
+        f.flag = (self.set_count - own_set >= 1)
+        return f
